@@ -17,6 +17,8 @@ pub enum Op {
 	TryRestartSig { sig: i32, grace_ms: u64 },
 	Signal(i32),
 	ToWait,
+	/// `Control::NextEnding` sent through the public `Job::control`, which queues everything at normal priority
+	RawNextEnding,
 	Delete,
 	DeleteNow,
 	/// `run` marker (normal priority)
@@ -53,6 +55,7 @@ impl Op {
 			Op::TryRestartSig { .. } => "try_restart_with_signal",
 			Op::Signal(_) => "signal",
 			Op::ToWait => "to_wait",
+			Op::RawNextEnding => "control_next_ending",
 			Op::Delete => "delete",
 			Op::DeleteNow => "delete_now",
 			Op::Run => "run",
@@ -108,6 +111,7 @@ impl Op {
 			"try_restart_with_signal" => Op::TryRestartSig { sig, grace_ms },
 			"signal" => Op::Signal(sig),
 			"to_wait" => Op::ToWait,
+			"control_next_ending" => Op::RawNextEnding,
 			"delete" => Op::Delete,
 			"delete_now" => Op::DeleteNow,
 			"run" => Op::Run,
